@@ -19,14 +19,15 @@ CONSTANTS DefaultCopied,   \* TRUE: schema defaults are deep-copied before use (
 
 Acc(k, x) == <<k, x>>
 
-Ops == {"find_mux", "find_legacy", "vreq_params", "vreq_body_pattern_first", "vreq_body_pattern_again", "vreq_body_unique",
+Ops == {"find_mux", "find_legacy", "vreq_params", "vreq_params_delete", "vreq_body_pattern_first", "vreq_body_pattern_again", "vreq_body_unique",
         "vreq_body_defaults", "vresp", "visitjson", "gen_newtype", "gen_sametype", "vreq_body_pattern_customregex"}
 
 Accesses(op) ==
    CASE op = "find_mux" ->
           <<Acc("R", "mux.routes")>> \o (IF RouteCopied THEN <<>> ELSE <<Acc("W", "mux.route.method"), Acc("R", "mux.route.method")>>)
      [] op = "find_legacy" -> <<Acc("R", "legacy.tree"), Acc("R", "doc.paths")>>
-     [] op = "vreq_params" -> <<Acc("R", "doc.schema")>>
+     [] op \in {"vreq_params", "vreq_params_delete"} ->      \* path-item parameters and the operation's own: two lists, both only read
+          <<Acc("R", "doc.pathitem.parameters"), Acc("R", "doc.operation.parameters"), Acc("R", "doc.schema")>>
      [] op = "vreq_body_pattern_first" -> <<Acc("R", "doc.schema"), Acc("A", "patternCache"), Acc("A", "patternCache")>>
      [] op = "vreq_body_pattern_customregex" ->      \* a caller-supplied regex compiler: its matchers must stay the caller's own
           <<Acc("R", "doc.schema"), Acc("A", "patternCache")>>
@@ -46,6 +47,7 @@ Accesses(op) ==
 (* only.  "other": the operation reports no accept/reject verdict.                               *)
 Verdicts(op) ==
    CASE op = "vreq_params" -> <<"ok", "reject", "ok">>
+     [] op = "vreq_params_delete" -> <<"ok", "reject", "ok">>
      [] op = "vreq_body_pattern" -> <<"ok", "reject", "reject">>                \* matching / foreign / upper-cased text
      [] op = "vreq_body_pattern_customregex" -> <<"ok", "reject", "ok">>        \* upper-cased / foreign / matching text
      [] op = "vreq_body_unique" -> <<"reject", "ok", "reject">>
